@@ -18,6 +18,7 @@ import (
 	"net/http/httptest"
 	"os"
 	"path/filepath"
+	"regexp"
 	"sort"
 	"strings"
 	"sync"
@@ -182,6 +183,35 @@ func parsePath(p string) (hist int, mode string, u int, ok bool) {
 	return
 }
 
+// destURL builds the destination string of a rule version. Modes bad-* are strings the reconnecting
+// client can never dial: wrong scheme, user:password, empty - and strings that do not even parse as a
+// url (blank in the host, bad %-escape, non-numeric port, missing ']').
+func destURL(base string, hist int, mode string, u int) string {
+	path := pathOf(hist, mode, u)
+	switch mode {
+	case "bad-scheme":
+		return "https" + strings.TrimPrefix(base, "ws") + path
+	case "bad-user":
+		return "ws://user:secret@" + strings.TrimPrefix(base, "ws://") + path
+	case "bad-space":
+		return "wss://relay.example .org" + path
+	case "bad-escape":
+		return base + path + "%zz"
+	case "bad-port":
+		return "wss://relay.example.org:port" + path
+	case "bad-bracket":
+		return "wss://[::1" + path
+	case "bad-empty":
+		return ""
+	}
+	return base + path
+}
+
+var badModes = []string{"bad-scheme", "bad-user", "bad-space", "bad-escape", "bad-port", "bad-bracket", "bad-empty"}
+
+// noConn: a destination of this mode never has a connection
+func noConn(mode string) bool { return mode == "down" || strings.HasPrefix(mode, "bad") }
+
 // parseURL maps a destination URL of this process back to (hist, mode, u).
 func parseURL(s string) (int, string, int, bool) {
 	i := strings.Index(s, "/h")
@@ -322,6 +352,15 @@ type runner struct {
 	timer  *time.Timer
 	dummy  *hub.Client
 	failed string
+	emptyU int // the url number of the rule version whose destination is the empty string (0 = none)
+}
+
+// parse maps a destination string found in the hub's tables back to (hist, mode, u)
+func (r *runner) parse(s string) (int, string, int, bool) {
+	if s == "" && r.emptyU > 0 {
+		return r.hist, "bad-empty", r.emptyU, true
+	}
+	return parseURL(s)
 }
 
 func (r *runner) guard(f func()) {
@@ -406,31 +445,39 @@ func (r *runner) barrier() bool {
 
 // live reads the rwc hub's client table (the hub goroutine is idle after the barrier).
 func (r *runner) live() map[int]string {
-	m := map[int]string{}
+	m, _ := r.liveCount()
+	return m
+}
+
+// liveCount: destination url -> mode, and how many clients of the hub's table point at it (two rule ids
+// may name the same destination)
+func (r *runner) liveCount() (map[int]string, map[int]int) {
+	m, n := map[int]string{}, map[int]int{}
 	for _, c := range r.h.Clients {
-		if hist, mode, u, ok := parseURL(c.Messages.Name); ok && hist == r.hist {
+		if hist, mode, u, ok := r.parse(c.Messages.Name); ok && hist == r.hist {
 			m[u] = mode
+			n[u]++
 		}
 	}
-	return m
+	return m, n
 }
 
 // settle waits until the connections at the servers are what the hub's own client table asks for.
 // That table only paces the wait - the verdict is the oracle's, from the history alone.
 func (r *runner) settle(newU, atLeast int) bool {
 	deadline := time.Now().Add(settleBy)
-	live := r.live()
+	live, cnt := r.liveCount()
 	for {
 		s := snapshot(r.hist)
 		ok, soft := true, true
 		for u, mode := range live {
-			if mode != "down" && s.open[u] != 1 {
+			if !noConn(mode) && s.open[u] != cnt[u] {
 				ok = false
 			}
 			// a rule just (re-)added normally makes a connection of its own: one that was open
 			// before belongs to the client it replaced and is on its way out. Waited for, but a
 			// hub that keeps the old connection is not wrong for that alone.
-			if mode != "down" && u == newU && s.total[u] < atLeast {
+			if !noConn(mode) && u == newU && s.total[u] < atLeast {
 				soft = false
 			}
 		}
@@ -496,13 +543,13 @@ func (r *runner) probe(c *Case, s int, idx int) bool {
 		want, also := []int{}, []int{}
 		live := r.live()
 		for m := range r.mh.Hub.Clients[topic] {
-			if hist, mode, u, ok := parseURL(m.Name); ok && hist == r.hist {
+			if hist, mode, u, ok := r.parse(m.Name); ok && hist == r.hist {
 				if _, isLive := live[u]; !isLive {
 					continue // a registration the rwc hub no longer owns: nothing to wait for
 				}
 				if mode == "up" {
 					want = append(want, u)
-				} else if mode != "down" {
+				} else if !noConn(mode) {
 					also = append(also, u) // waited for, but never a reason to repeat the broadcast
 				}
 			}
@@ -597,7 +644,10 @@ func runHistory(c *Case) {
 			case "bad":
 				file = fmt.Sprintf("/nonexistent-dir-c16/h%d-u%d.rec", hist, o.U)
 			}
-			ok = r.add(rwc.Rule{ID: c.idn(o.ID), Stream: streamNames[o.S], Destination: base + pathOf(hist, o.Mode, o.U), File: file})
+			if o.Mode == "bad-empty" {
+				r.emptyU = o.U
+			}
+			ok = r.add(rwc.Rule{ID: c.idn(o.ID), Stream: streamNames[o.S], Destination: destURL(base, hist, o.Mode, o.U), File: file})
 		case "Del":
 			ok = r.del(c.idn(o.ID))
 		case "DelAll":
@@ -640,7 +690,7 @@ func runHistory(c *Case) {
 				break
 			}
 			u := 9999
-			if hh, _, uu, ok := parseURL(ru.Destination); ok && hh == hist {
+			if hh, _, uu, ok := r.parse(ru.Destination); ok && hh == hist {
 				u = uu
 			}
 			ob.Rules = append(ob.Rules, [3]int{c.idnum(id), streamNumber(ru.Stream), u})
@@ -657,7 +707,7 @@ func runHistory(c *Case) {
 				break
 			}
 			u := 9999
-			if hh, _, uu, ok := parseURL(cl.Messages.Name); ok && hh == hist {
+			if hh, _, uu, ok := r.parse(cl.Messages.Name); ok && hh == hist {
 				u = uu
 			}
 			ob.Clients = append(ob.Clients, [2]int{c.idnum(id), u})
@@ -669,7 +719,7 @@ func runHistory(c *Case) {
 					break
 				}
 				u := 999
-				if hh, _, uu, ok := parseURL(m.Name); ok && hh == hist {
+				if hh, _, uu, ok := r.parse(m.Name); ok && hh == hist {
 					u = uu
 				}
 				ob.Members = append(ob.Members, 10*u+s)
@@ -805,7 +855,7 @@ func (c Case) coq() string {
 // escapes, non-ASCII, very long, empty.
 func idShapes(r *lib.Rng, c *Case) {
 	pool := []string{"/deleteAll", "deleteAll/", "deleteall", " deleteAll", "deleteAll ", "%2FdeleteAll", "DeleteAll", "//deleteAll",
-		"r 1", "r\u00e8gle-\u03bb", strings.Repeat("x", 300), "/r1", "r1/", "/r2", "r3 ", "a/b", ""}
+		"admin", "apiRule", "r 1", "r\u00e8gle-\u03bb", strings.Repeat("x", 300), "/r1", "r1/", "/r2", "r3 ", "a/b", ""}
 	c.IDNames = make([]string, nIDs+1)
 	for i := 1; i <= nIDs; i++ {
 		if r.Chance(2, 3) {
@@ -890,12 +940,22 @@ func genHistory(r *lib.Rng, kind string) Case {
 	}
 	curr := map[int]cur{}
 	nextU := 1
+	usedEmpty := false
 	mode := func() string {
 		switch x := r.Intn(100); {
-		case x < 62:
+		case x < 56:
 			return "up"
-		case x < 73:
+		case x < 64:
 			return "down"
+		case x < 73:
+			m := badModes[r.Intn(len(badModes))]
+			if m == "bad-empty" {
+				if usedEmpty {
+					m = "bad-scheme"
+				}
+				usedEmpty = true
+			}
+			return m
 		case x < 85:
 			return "talk"
 		default:
@@ -930,6 +990,17 @@ func genHistory(r *lib.Rng, kind string) Case {
 			default:
 				o = Op{K: "Add", ID: id, S: r.Range(1, nStreams), Mode: mode(), U: nextU}
 				nextU++
+			}
+			// now and then the destination of ANOTHER rule id (then that destination has one connection
+			// per rule naming it)
+			if o.U == nextU-1 && r.Chance(1, 10) {
+				for other, cu := range curr {
+					if other != id && (cu.mode == "up" || cu.mode == "down") {
+						nextU--
+						o.U, o.Mode = cu.u, cu.mode
+						break
+					}
+				}
 			}
 			// a recording file now and then: one that can be written, one that cannot even be created
 			switch y := r.Intn(100); {
@@ -1031,7 +1102,17 @@ func oracle(c Case, idx int, res *lib.Result) {
 		mode string
 	}
 	curr := map[int]cur{}
-	owner := map[int]int{} // url -> rule id it was created for
+	owner := map[int]int{}       // url -> rule id it was first created for (for the messages)
+	users := func(u int) []int { // the ids whose current rule names url u
+		ids := []int{}
+		for id, cu := range curr {
+			if cu.u == u {
+				ids = append(ids, id)
+			}
+		}
+		sort.Ints(ids)
+		return ids
+	}
 	last := "start"
 	hist := func(i int) string {
 		hs := []string{}
@@ -1044,6 +1125,12 @@ func oracle(c Case, idx int, res *lib.Result) {
 			}
 		}
 		return strings.Join(hs, "; ")
+	}
+	if c.Panic && len(c.Obs) == 0 && strings.HasPrefix(c.Detail, "child process") {
+		// the whole process running the code under test died while this history was executing alone
+		m := regexp.MustCompile(`(panic: [^\n]*|fatal error: [^\n]*)`).FindString(c.Detail)
+		bad("host-process-died", c.Kind, "the process running the hubs died during this history ("+m+"); history: "+hist(len(c.Ops)-1))
+		return
 	}
 	for i, o := range c.Ops {
 		if i >= len(c.Obs) {
@@ -1058,7 +1145,9 @@ func oracle(c Case, idx int, res *lib.Result) {
 		case "Add":
 			if c.idn(o.ID) != "deleteAll" { // the reserved word, exactly; every other string is an ordinary id
 				curr[o.ID] = cur{o.S, o.U, o.Mode}
-				owner[o.U] = o.ID
+				if _, seen := owner[o.U]; !seen {
+					owner[o.U] = o.ID
+				}
 			}
 			last = "Add"
 		case "Del":
@@ -1123,76 +1212,77 @@ func oracle(c Case, idx int, res *lib.Result) {
 				bad("front-ends-disagree", o.K+"-"+o.Front, fmt.Sprintf("op %d (%s): GET /api/destinations/all lists (id,stream,url) %v, the admin API lists %v; history: %s", i, c.opString(o), ob.Rules, ob.AdminRules, hist(i)))
 			}
 			// what is registered with the messages hub: one client per current rule, nothing else
-			seenM := map[int]int{}
-			if ob.RulesOnly {
-				for _, cu := range curr {
-					seenM[cu.u] = 1 // not readable on the assembled host
-				}
-			}
+			obsM := map[int]int{}
 			for _, us := range ob.Members {
 				u, ms := us/10, us%10
-				seenM[u]++
-				id := owner[u]
-				cu, ok := curr[id]
-				if !ok || cu.u != u || seenM[u] > 1 {
+				obsM[u]++
+				ids := users(u)
+				streamOK := false
+				for _, id := range ids {
+					if curr[id].s == ms {
+						streamOK = true
+					}
+				}
+				switch {
+				case len(ids) == 0 || obsM[u] > len(ids):
 					bad("superseded-client-still-registered", "after-"+last,
-						fmt.Sprintf("op %d (%s): a client for u%d (made for %s) is still registered with the messages hub although its rule was replaced or deleted; history: %s", i, c.opString(o), u, c.idn(id), hist(i)))
-				} else if cu.s != ms {
+						fmt.Sprintf("op %d (%s): a client for u%d (made for %s) is still registered with the messages hub although its rule was replaced or deleted (%d registered, %d current rules name that destination); history: %s", i, c.opString(o), u, c.idn(owner[u]), obsM[u], len(ids), hist(i)))
+				case !streamOK:
 					bad("client-registered-for-old-stream", "after-"+last,
-						fmt.Sprintf("op %d (%s): the client of rule %s -> u%d is registered with the messages hub for %s, its latest rule names %s; history: %s", i, c.opString(o), c.idn(id), u, streamNames[ms%4], streamNames[cu.s], hist(i)))
+						fmt.Sprintf("op %d (%s): the client of rule %s -> u%d is registered with the messages hub for %s, its latest rule names %s; history: %s", i, c.opString(o), c.idn(ids[0]), u, streamNames[ms%4], streamNames[curr[ids[0]].s], hist(i)))
 				}
 			}
 			for id, cu := range curr {
-				if seenM[cu.u] == 0 {
+				if !ob.RulesOnly && obsM[cu.u] < len(users(cu.u)) {
 					bad("live-rule-not-registered", "after-"+last,
 						fmt.Sprintf("op %d (%s): rule %s -> u%d has no client registered with the messages hub; history: %s", i, c.opString(o), c.idn(id), cu.u, hist(i)))
 				}
 			}
 		}
-		// at most one live connection per id, and only to the destination of the latest rule
-		perID := map[int]int{}
+		// at most one live connection per rule, and only to destinations of latest rules (two rule
+		// ids may name the same destination: then it has one connection per rule)
+		openN := map[int]int{}
 		for _, u := range ob.Open {
-			id := owner[u]
-			perID[id]++
-			if cu, ok := curr[id]; !ok || cu.u != u {
-				bad("superseded-destination-still-connected", "after-"+last,
-					fmt.Sprintf("op %d (%s): a connection to u%d (made for %s) is still open after the hub settled (up to 2 s) although that rule was replaced or deleted; history: %s", i, c.opString(o), u, c.idn(id), hist(i)))
-			}
+			openN[u]++
 		}
-		for id, k := range perID {
-			if k > 1 {
+		for u, k := range openN {
+			ids := users(u)
+			switch {
+			case len(ids) == 0:
+				bad("superseded-destination-still-connected", "after-"+last,
+					fmt.Sprintf("op %d (%s): a connection to u%d (made for %s) is still open after the hub settled (up to 2 s) although that rule was replaced or deleted; history: %s", i, c.opString(o), u, c.idn(owner[u]), hist(i)))
+			case k > len(ids):
 				bad("two-live-connections-for-one-id", "after-"+last,
-					fmt.Sprintf("op %d (%s): %d connections open for rule %s (urls open: %v); history: %s", i, c.opString(o), k, c.idn(id), ob.Open, hist(i)))
+					fmt.Sprintf("op %d (%s): %d connections open to u%d, which %d current rule(s) name (%s ..) (urls open: %v); history: %s", i, c.opString(o), k, u, len(ids), c.idn(ids[0]), ob.Open, hist(i)))
 			}
 		}
 		for id, cu := range curr {
 			if cu.mode != "up" {
 				continue // a destination that drops connections is between connections every now and then
 			}
-			found := false
-			for _, u := range ob.Open {
-				if u == cu.u {
-					found = true
-				}
-			}
-			if !found {
+			if openN[cu.u] < len(users(cu.u)) {
 				bad("live-rule-not-connected", "after-"+last,
-					fmt.Sprintf("op %d (%s): rule %s -> u%d (%s) has no open connection after 2 s; history: %s", i, c.opString(o), c.idn(id), cu.u, cu.mode, hist(i)))
+					fmt.Sprintf("op %d (%s): rule %s -> u%d (%s) has no open connection after 2 s (%d open, %d rules name it); history: %s", i, c.opString(o), c.idn(id), cu.u, cu.mode, openN[cu.u], len(users(cu.u)), hist(i)))
 			}
 		}
 		if o.K == "B" || o.K == "Stall" {
 			got := map[int]bool{}
 			for _, u := range ob.Recv {
 				got[u] = true
-				id := owner[u]
-				cu, ok := curr[id]
+				ids := users(u)
+				streamOK := false
+				for _, id := range ids {
+					if curr[id].s == o.S {
+						streamOK = true
+					}
+				}
 				switch {
-				case !ok || cu.u != u:
+				case len(ids) == 0:
 					bad("traffic-to-superseded-destination", "after-"+last,
-						fmt.Sprintf("op %d (%s): the message broadcast now reached u%d, whose rule (%s) had already been replaced or deleted; history: %s", i, c.opString(o), u, c.idn(id), hist(i)))
-				case cu.s != o.S:
+						fmt.Sprintf("op %d (%s): the message broadcast now reached u%d, whose rule (%s) had already been replaced or deleted; history: %s", i, c.opString(o), u, c.idn(owner[u]), hist(i)))
+				case !streamOK:
 					bad("traffic-from-wrong-stream", "after-"+last,
-						fmt.Sprintf("op %d (%s): reached u%d, whose rule names %s; history: %s", i, c.opString(o), u, streamNames[cu.s], hist(i)))
+						fmt.Sprintf("op %d (%s): reached u%d, whose rule names %s; history: %s", i, c.opString(o), u, streamNames[curr[ids[0]].s], hist(i)))
 				}
 			}
 			for id, cu := range curr {
